@@ -125,6 +125,9 @@ def lean_build():
         if rc != 0:
             # build what can be built so that unaffected properties are still decided
             sh(["lake", "build", "gecs-model"], cwd=LEAN, timeout=3600)
+        if os.path.exists(MODEL_BIN):
+            os.makedirs(os.path.join(tdir(), "bin"), exist_ok=True)
+            shutil.copy2(MODEL_BIN, os.path.join(tdir(), "bin", "gecs-model"))
         json.dump(res, open(marker, "w"))
         return res
 
@@ -249,7 +252,13 @@ def lean_obligations(prop):
 def build_rt(cfgname):
     prof, feats = CONFIGS[cfgname]
     target = os.path.join(CACHE, "target-rt-" + cfgname)
-    binp = os.path.join(target, prof, "rt")
+    built = os.path.join(target, prof, "rt")
+    # The cargo target directory is shared between trees (incremental builds), so the binary a
+    # tree's streams are produced with is COPIED into that tree's cache directory: coming back to
+    # an earlier tree (e.g. after a seeded change was reverted) never runs another tree's build.
+    bindir = os.path.join(tdir(), "bin")
+    os.makedirs(bindir, exist_ok=True)
+    binp = os.path.join(bindir, "rt-" + cfgname)
     marker = os.path.join(tdir(), f"rt-{cfgname}.json")
     with Lock("cargo-" + cfgname):
         if os.path.exists(marker):
@@ -266,16 +275,25 @@ def build_rt(cfgname):
             cmd += ["--features", ",".join(feats)]
         env = dict(ENV, CARGO_TARGET_DIR=target, RUSTFLAGS="--cfg gecs_verif -Awarnings")
         rc, out = sh(cmd, cwd=hdir, env=env, timeout=3600)
+        if rc == 0:
+            shutil.copy2(built, binp)
         r = {"ok": rc == 0, "bin": binp, "wall_s": round(time.time() - t0, 1), "log_tail": out[-4000:]}
         json.dump(r, open(marker, "w"))
         return r
+
+
+def model_bin():
+    """The model driver this tree's Lean sources were built into (copied per tree like the harness)."""
+    lean_build()
+    b = os.path.join(tdir(), "bin", "gecs-model")
+    return b if os.path.exists(b) else MODEL_BIN
 
 
 # ----------------------------------------------------------------------------- streams
 
 def run_model(trace_path):
     with open(trace_path) as fh:
-        p = subprocess.run([MODEL_BIN, "rt"], stdin=fh, stdout=subprocess.PIPE, stderr=subprocess.PIPE, text=True, errors="replace")
+        p = subprocess.run([model_bin(), "rt"], stdin=fh, stdout=subprocess.PIPE, stderr=subprocess.PIPE, text=True, errors="replace")
     mism, invf, summary = [], [], None
     for line in p.stdout.splitlines():
         if line.startswith("MISMATCH"):
